@@ -1,4 +1,5 @@
 import LarkVerif.EarleyExec
+import LarkVerif.EarleyExpected
 import LarkVerif.LRComplete
 /-! # C08 — rejections happen at the first offending position -/
 namespace Props.C08
@@ -23,5 +24,25 @@ theorem lalr_viable_prefix_shifts {G : EarleyProto.Grammar} {T : LRProto.Table} 
     (pre post : List Nat) (h : EarleyProto.DerivesSeq G [EarleyProto.Sym.nt s0] (pre ++ post)) :
     ∃ F0, ∀ F, F0 < F → ∃ cfg', LRProto.feedAll T F ⟨[T.start], []⟩ pre = LRProto.Outcome.shifted cfg' :=
   LRProto.viable_prefix_shifts hC pre post h
+
+/-- **Continuation sets, nothing missing** (every grammar): a terminal that can legally come next at position `i` — some reading of the text
+    up to `i` followed by it begins a sentence — is among the terminals after the dot of the chart items of column `i`, i.e. in the reported
+    `expected`/`allowed` set. -/
+theorem earley_expected_complete {G : EarleyProto.Grammar} {L : EarleyProto.Lattice} {start i a : Nat}
+    (h : EarleyProto.LegalNext G L start i a) : EarleyProto.Expected G L start i a :=
+  EarleyProto.legal_is_expected h
+
+/-- **Continuation sets, exact** (dynamic Earley lexers; grammars whose rules are all productive, certified by the decidable `productiveB`):
+    the executable continuation set of a column — the list the driver prints and the harness compares with lark's exception — contains a
+    terminal iff it can legally come next. -/
+theorem earley_expected_exact (G : EarleyProto.Grammar) (L : EarleyProto.FLattice) (hL : L.WF) (start i a : Nat) (order : List EarleyProto.Rule)
+    (hP : EarleyProto.productiveB G order = true) :
+    a ∈ EarleyProto.expectedAt G L start i ↔ EarleyProto.LegalNext G L.toLattice start i a :=
+  EarleyProto.expectedAt_exact G L hL start i a order hP
+
+/-- productivity cannot be dropped: `start: "b" x`, `x: "c" x` after `b` expects `c` although no sentence exists (true of lark as well) -/
+theorem earley_expected_needs_productive :
+    EarleyProto.Expected EarleyProto.badG EarleyProto.badL 0 1 2 ∧ ¬ EarleyProto.LegalNext EarleyProto.badG EarleyProto.badL 0 1 2 :=
+  EarleyProto.unproductive_counterexample
 
 end Props.C08
